@@ -103,3 +103,28 @@ fn c04_lane_count() {
     lane_count(16, 2, true);
     kani::cover!(true, "reached");
 }
+
+//@ harness: c13_store_lane_data props=C13 tier=quick class=functional covers=1 mem=16 timeout=900 est=120
+//@ bounds: two data words with the same id 0x25 and ARBITRARY data bytes stored into a frame: one lane holding the 9 data bytes of word 0 followed by the 9 data bytes of word 1 (the identifier byte is never stored)
+#[kani::proof]
+#[kani::unwind(11)]
+fn c13_store_lane_data() {
+    let mut w0: [u8; 10] = kani::any();
+    let mut w1: [u8; 10] = kani::any();
+    w0[9] = 0x25;
+    w1[9] = 0x25;
+    let mut f = AlpideReadoutFrame::new(0x100);
+    f.store_lane_data(&w0, Layer::Inner);
+    f.store_lane_data(&w1, Layer::Inner);
+    let l = f.lane_data_frames_as_slice();
+    assert!(l.len() == 1 && l[0].id() == 0x25, "lane data of one identifier split over several lanes");
+    let a = l[0].data();
+    assert!(a.len() == 18, "a lane does not hold exactly 9 bytes per data word");
+    let mut i = 0;
+    while i < 9 {
+        assert!(a[i] == w0[i] && a[9 + i] == w1[i], "lane data altered or misplaced");
+        i += 1;
+    }
+    kani::cover!(a[17] == 0xB0, "arbitrary data");
+    core::mem::forget(f);
+}
